@@ -50,6 +50,9 @@ Prand(l, r) == [t |-> "rand", l |-> l, r |-> r]
 Pwhite(k, o, r) == [t |-> "white", k |-> k, o |-> o, r |-> r]
 Rseq(l, r) == [t |-> "rseq", l |-> l, r |-> r]
 Rtuple(a, b) == [t |-> "rtuple", a |-> a, b |-> b]
+Rout(k, o, r) == [t |-> "rout", k |-> k, o |-> o, r |-> r]
+Run(f, a) == [t |-> "run", f |-> f, a |-> a]
+Rif(a, b, c) == [t |-> "rif", a |-> a, b |-> b, c |-> c]
 Rbin(f, a, b) == [t |-> "rbin", f |-> f, a |-> a, b |-> b]
 Pseed(a, p, tp) == [t |-> "seed", a |-> a, p |-> p, tp |-> tp, pm |-> <<>>]
 Pshuffle(l, r) == [t |-> "shuf", l |-> l, r |-> r]
@@ -121,7 +124,14 @@ Tiny1 == {Pseq(<<I(1), I(2), I(3)>>, 2, 1), Pseries(0, I(1), INF), Plen(I(2), 2)
 \* Pseed-wrapped random patterns (K = 3 draws; the tape here is arbitrary, the drivers substitute the real generator's)
 Tape3 == <<[sd |-> 3, d |-> [i \in 1..60 |-> (i * i + 1) % 3]], [sd |-> 4, d |-> [i \in 1..60 |-> (i + (i \div 3)) % 3]]>>
 RLeaves == {Prand(<<I(5), I(6), I(7)>>, r) : r \in {1, 2, INF}} \cup {Pwhite(k, 3, r) : k \in {0, 2}, r \in {2, INF}}
-RBodies == RLeaves \cup {Rseq(<<a, b>>, r) : a \in RLeaves, b \in RLeaves, r \in {1, 2}}
+\* routine-backed leaves (Prout drawing with the library's builtins): directly under Pseed, under operators, under Pif
+Routs == {Rout(k, 3, r) : k \in {0, 4}, r \in {2, INF}}
+RoutBodies == Routs \cup {Run(f, a) : f \in {"neg", "inc"}, a \in Routs}
+                    \cup {Rbin(f, a, b) : f \in {"add", "sub"}, a \in Routs, b \in {I(2)} \cup Routs \cup {Pwhite(0, 3, 2)}}
+                    \cup {Rbin("sub", I(9), a) : a \in Routs} \cup {Rtuple(a, Pwhite(0, 3, INF)) : a \in Routs}
+                    \cup {Rif(c, a, b) : c \in {CSeq, CFin}, a \in Routs, b \in {I(7), Rout(4, 3, INF)}}
+                    \cup {Rseq(<<a, b>>, 2) : a \in Routs, b \in {Pwhite(0, 3, 1)}}
+RBodies == RLeaves \cup RoutBodies \cup {Rseq(<<a, b>>, r) : a \in RLeaves, b \in RLeaves, r \in {1, 2}}
                    \cup {Rtuple(a, b) : a \in RLeaves, b \in RLeaves}
                    \cup {Rbin(f, a, b) : f \in {"add", "mul"}, a \in RLeaves, b \in RLeaves}
 Perm3 == <<[sd |-> 3, d |-> <<2, 3, 1>>], [sd |-> 4, d |-> <<3, 2, 1>>]>>
